@@ -4,10 +4,10 @@
 
 use crate::query::plan::{
     AddLabelOp, AggregateExpr, AggregateFunction, AggregateOp, BinaryOp, CreateEdgeOp,
-    CreateNodeOp, DeleteNodeOp, DistinctOp, ExpandDirection, ExpandOp, FilterOp, JoinOp, JoinType,
-    LeftJoinOp, LimitOp, LogicalExpression, LogicalOperator, LogicalPlan, MergeOp, NodeScanOp,
-    ProjectOp, Projection, RemoveLabelOp, ReturnItem, ReturnOp, SetPropertyOp, ShortestPathOp,
-    SkipOp, SortKey, SortOp, SortOrder, UnaryOp, UnwindOp,
+    CreateNodeOp, DeleteEdgeOp, DeleteNodeOp, DistinctOp, ExpandDirection, ExpandOp, FilterOp,
+    JoinOp, JoinType, LeftJoinOp, LimitOp, LogicalExpression, LogicalOperator, LogicalPlan,
+    MergeOp, NodeScanOp, ProjectOp, Projection, RemoveLabelOp, ReturnItem, ReturnOp, SetPropertyOp,
+    ShortestPathOp, SkipOp, SortKey, SortOp, SortOrder, UnaryOp, UnwindOp,
 };
 use grafeo_adapters::query::gql::{self, ast};
 use grafeo_common::types::Value;
@@ -198,11 +198,19 @@ impl GqlTranslator {
         // Handle DELETE clauses (Cypher-style: MATCH ... DELETE ...)
         for delete_clause in &query.delete_clauses {
             for variable in &delete_clause.variables {
-                plan = LogicalOperator::DeleteNode(DeleteNodeOp {
-                    variable: variable.clone(),
-                    detach: delete_clause.detach,
-                    input: Box::new(plan),
-                });
+                // An edge variable deletes that edge, anything else a node
+                plan = if plan.binds_edge_variable(variable) {
+                    LogicalOperator::DeleteEdge(DeleteEdgeOp {
+                        variable: variable.clone(),
+                        input: Box::new(plan),
+                    })
+                } else {
+                    LogicalOperator::DeleteNode(DeleteNodeOp {
+                        variable: variable.clone(),
+                        detach: delete_clause.detach,
+                        input: Box::new(plan),
+                    })
+                };
             }
         }
 
